@@ -69,7 +69,7 @@ func newStyleFor(html *HTML, sheets []sheet, presentationalHints bool,
 		for _, decl := range validation.PreprocessDeclarations(styleAttr.baseUrl, styleAttr.declaration) {
 			// name, values, importance = decl
 			precedence := declarationPrecedence("author", decl.Important)
-			we := weight{precedence: precedence, specificity: styleAttr.specificity}
+			we := weight{precedence: precedence, styleAttr: styleAttr.isStyleAttr, specificity: styleAttr.specificity}
 			oldWeight := style[decl.Name].weight
 			if oldWeight.isNone() || oldWeight.Less(we) {
 				style[decl.Name] = weigthedValue{weight: we, value: decl.Value, shortand: decl.Shortand}
@@ -752,7 +752,7 @@ func findStyleAttributes(tree *utils.HTMLNode, presentationalHints bool, baseUrl
 		specificity := selector.Specificity{1, 0, 0}
 		styleAttribute := element.Get("style")
 		if styleAttribute != "" {
-			out = append(out, styleAttrSpec{specificity: specificity, styleAttr: checkStyleAttribute(element, styleAttribute)})
+			out = append(out, styleAttrSpec{specificity: specificity, isStyleAttr: true, styleAttr: checkStyleAttribute(element, styleAttribute)})
 		}
 		if !presentationalHints {
 			continue
@@ -1087,6 +1087,7 @@ type Element interface {
 
 type weight struct {
 	precedence  uint8
+	styleAttr   bool // declarations of a style attribute outrank every selector
 	specificity selector.Specificity
 }
 
@@ -1096,7 +1097,13 @@ func (w weight) isNone() bool {
 
 // Less return `true` if w <= other
 func (w weight) Less(other weight) bool {
-	return w.precedence < other.precedence || (w.precedence == other.precedence && (w.specificity.Less(other.specificity) || w.specificity == other.specificity))
+	if w.precedence != other.precedence {
+		return w.precedence < other.precedence
+	}
+	if w.styleAttr != other.styleAttr {
+		return other.styleAttr
+	}
+	return w.specificity.Less(other.specificity) || w.specificity == other.specificity
 }
 
 type weigthedValue struct {
@@ -1443,6 +1450,7 @@ type styleAttr struct {
 type styleAttrSpec struct {
 	styleAttr
 	specificity selector.Specificity
+	isStyleAttr bool // false for presentational hints
 }
 
 // Compute all the computed styles of all elements in `html` document.
